@@ -1,7 +1,7 @@
 (** * SlabTempProofs: what can be proved about the cooling models of slabs (property C20): the bottom side of the mass
     conserving model lies between its minimum temperature and the background, the slab top carries the minimum temperature,
     and the McKenzie series of the slab plate model vanishes on both slab surfaces. *)
-From Coq Require Import Reals Lra List ZArith Bool.
+From Coq Require Import Reals Lra List ZArith Bool Psatz.
 From WB Require Import Num Base RNum Props World Kernels Features ModelProofs SlabMass SlabFeature.
 Import ListNotations.
 Local Open Scope R_scope.
@@ -54,5 +54,70 @@ Section STP.
     assert (S1 : sin (IZR i * PI * 1) = 0).
     { rewrite Rmult_1_r. apply sin_eq_0_1. exists i. reflexivity. }
     rewrite S0, S1. rewrite !Rmult_0_r, !Rplus_0_r. apply IH.
+  Qed.
+  Lemma exp_le_1 x : x <= 0 -> exp x <= 1.
+  Proof. intros [H|H]; [left; rewrite <- exp_0; apply exp_increasing; exact H | rewrite H, exp_0; lra]. Qed.
+
+  (** the top side of the mass conserving slab (adjusted distance < 0, both reference models): a Gaussian heat deficit
+      subtracted from the incoming temperature; with a non-positive heat content it never heats, and it never cools below the
+      slab's minimum temperature (up to the 1e-16 the formula adds to its denominators) *)
+  Theorem mass_top_side_envelope (m : @mass_model R) top minT bgT old subvel age adj :
+    adj < 0 -> top <= 0 -> 0 < mc_density m * mc_cp m -> 0 < mc_kappa m -> minT <= old ->
+    old - minT <> @fdec R N 1 (-16) ->
+    minT - @fdec R N 1 (-16) <= @temperature_analytic R N m top minT bgT old subvel age adj <= old.
+  Proof.
+    intros Ha Ht Hd Hk Hm Hne. unfold temperature_analytic.
+    change (@flt R N) with Rltb. change (@f0 R N) with 0.
+    destruct (Rltb_spec adj 0) as [C|C]; [|lra].
+    set (e16 := @fdec R N 1 (-16)) in *.
+    assert (He : 0 < e16).
+    { unfold e16. change (@fdec R N 1 (-16)) with (IZR 1 * powerRZ 10 (-16)). assert (0 < powerRZ 10 (-16)) by (apply powerRZ_lt; lra). lra. }
+    destruct (Rltb_spec old minT) as [C2|C2]; [lra|].
+    change (@fadd R N) with Rplus. change (@fsub R N) with Rminus. change (@fmul R N) with Rmult. change (@fdiv R N) with Rdiv.
+    change (@fopp R N) with Ropp. change (@fsqrt R N) with sqrt. change (@fexp R N) with exp. change (@fpi R N) with PI.
+    change (@f2 R N) with 2. change (@f1 R N) with 1. change (@fofZ R N 4) with 4.
+    set (D := 2 * mc_density m * mc_cp m).
+    set (g := minT - old + e16).
+    set (inner := 2 * top / (D * g)).
+    set (t := 1 / (PI * mc_kappa m) * (inner * inner) + e16).
+    set (S := sqrt (PI * mc_kappa m * t)).
+    set (E := exp (- (adj * adj) / (4 * mc_kappa m * t))).
+    assert (HD : 0 < D) by (unfold D; nra).
+    assert (Hg : g <> 0) by (unfold g; intro; apply Hne; lra).
+    pose proof PI_RGT_0 as HP.
+    assert (Hpk : 0 < PI * mc_kappa m) by nra.
+    assert (Ht0 : 0 < t).
+    { unfold t. assert (0 <= 1 / (PI * mc_kappa m) * (inner * inner)).
+      { apply Rmult_le_pos; [left; apply Rdiv_lt_0_compat; lra | nra]. } lra. }
+    assert (HS2 : PI * mc_kappa m * t = inner * inner + PI * mc_kappa m * e16).
+    { unfold t. field. lra. }
+    assert (HSpos : 0 < S) by (unfold S; apply sqrt_lt_R0; nra).
+    assert (HSi : Rabs inner <= S).
+    { unfold S. rewrite HS2. rewrite <- (sqrt_Rsqr_abs inner). apply sqrt_le_1_alt. unfold Rsqr. nra. }
+    assert (HE0 : 0 < E) by apply exp_pos.
+    assert (HE1 : E <= 1).
+    { unfold E. apply exp_le_1. unfold Rdiv. assert (0 < / (4 * mc_kappa m * t)) by (apply Rinv_0_lt_compat; nra). nra. }
+    set (A := 2 * top / (D * S)).
+    assert (HA0 : A <= 0).
+    { unfold A, Rdiv. assert (0 < / (D * S)) by (apply Rinv_0_lt_compat; nra). nra. }
+    assert (HAg : - Rabs g <= A).
+    { destruct (Req_dec top 0) as [T0|T0].
+      - unfold A. rewrite T0. replace (2 * 0 / (D * S)) with 0 by (unfold Rdiv; ring). pose proof (Rabs_pos g). lra.
+      - (* |inner| = |2 top| / (D |g|), so |2 top| = |inner| D |g| <= S D |g| *)
+        assert (HI : Rabs inner * (D * Rabs g) = - (2 * top)).
+        { unfold inner. unfold Rdiv. rewrite Rabs_mult, Rabs_inv. rewrite (Rabs_mult D g), (Rabs_pos_eq D) by lra.
+          rewrite (Rabs_left1 (2 * top)) by lra. field. split; [apply Rabs_no_R0; exact Hg | lra]. }
+        assert (Gp : 0 < Rabs g) by (apply Rabs_pos_lt; exact Hg).
+        unfold A. apply Rmult_le_reg_r with (D * S); [nra|].
+        unfold Rdiv. rewrite Rmult_assoc, Rinv_l by nra. rewrite Rmult_1_r.
+        assert (Rabs inner * (D * Rabs g) <= S * (D * Rabs g)) by (apply Rmult_le_compat_r; nra). nra. }
+    fold D. fold g. fold inner. fold t. fold S. fold E.
+    replace (2 * top / (D * S)) with A by reflexivity.
+    assert (HAE : - Rabs g <= A * E <= 0).
+    { pose proof (Rabs_pos g). split; nra. }
+    assert (Gb : Rabs g <= Rmax (old - minT - e16) e16).
+    { unfold g, Rabs. destruct (Rcase_abs (minT - old + e16)); unfold Rmax; destruct (Rle_dec (old - minT - e16) e16); lra. }
+    split; [|lra].
+    unfold Rmax in Gb. destruct (Rle_dec (old - minT - e16) e16); lra.
   Qed.
 End STP.
